@@ -60,11 +60,20 @@ pub mod routing {
         old: Option<L>,
         table: &HashMap<L, Vec<Vec<PathSegment>>>,
     ) -> String {
-        let (p, s, h) = (path.to_string(), search.to_string(), hash.to_string());
+        let (p, s, h, q) = (path.to_string(), search.to_string(), hash.to_string(), search.to_string());
         let location = Location {
             pathname: Memo::new(move |_| p.clone()),
             search: Memo::new(move |_| s.clone()),
-            query: Memo::new(move |_| Default::default()),
+            // the parsed query as leptos_router would hold it next to the raw `search` (keys grouped, no decoding needed
+            // for the generated strings)
+            query: Memo::new(move |_| {
+                let mut m = leptos_router::params::ParamsMap::new();
+                for kv in q.split('&').filter(|x| !x.is_empty()) {
+                    let (k, v) = kv.split_once('=').unwrap_or((kv, ""));
+                    m.insert(k.to_string(), v.to_string());
+                }
+                m
+            }),
             hash: Memo::new(move |_| h.clone()),
             state: signal(Default::default()).0,
         };
